@@ -237,6 +237,8 @@ def oracle(case, kd, s0):
             return bad
     else:
         s = G(Fraction(s0))
+    if case.get('solver') and kd.get('solver_method') != case['solver']:
+        bad.append('configured solver_method %s did not reach the analysis (it used %s)' % (case['solver'], kd.get('solver_method')))
     live_noise = []
     node_sum = {}      # node index -> sum of currents leaving the node through elements
     incomplete = set()
@@ -572,6 +574,11 @@ def gen_cases(rng, tier):
         cases.append({'netlist': nl['lines'], 'tags': nl['tags'], 's0': '%s%d/%d' % ('-' if i % 3 == 2 else '', rng.randint(1, 9), rng.randint(1, 4)),
                       'eps': '1/7', 'convention': 'hybrid' if i % 5 == 4 else ('active' if i % 7 == 3 else 'passive'),
                       'methods': ['DM', 'LU', 'GE', 'ADJ'] if i % 3 == 0 else ['DM', 'LU']})
+        # the solver configured on the circuit (it must reach the sub-analyses and give the same reported values)
+        if i % 4 == 1:
+            cases[-1]['solver'] = 'LU'
+        elif i % 8 == 3:
+            cases[-1]['solver'] = 'ADJ'
     return cases
 
 
